@@ -53,6 +53,8 @@ structure Cost where
   consumed : Nat := 0     -- input bytes consumed by the parser
   steps : Nat := 0        -- reader operations performed
   alloc : Nat := 0        -- bytes requested from the allocator by the modelled code
+  efail : Nat := 0        -- of these, bytes requested up front by eager reads that then failed (the input was shorter)
+  zout : Nat := 0         -- bytes produced by the external inflate
 deriving Repr, DecidableEq, Inhabited
 
 /-- result of `ReadFull`/`ReadBytes` of `n` bytes on remaining input `inp` whose end surfaces
@@ -84,11 +86,12 @@ def runPure {α : Type} (zl : Inflate) : Prog α → List UInt8 → IOErr → Co
     let r := readFullResult inp e n
     let got := if n ≤ inp.length then n else inp.length      -- bytes consumed by this read
     runPure zl (k r.1) r.2 e
-      { consumed := c.consumed + got, steps := c.steps + 1, alloc := c.alloc + readAlloc eager n got }
+      { c with consumed := c.consumed + got, steps := c.steps + 1, alloc := c.alloc + readAlloc eager n got,
+               efail := c.efail + (if eager && !(decide (n ≤ inp.length)) then n else 0) }
   | inflate z k, inp, e, c =>
     let r := zl z
     let m := match r with | .ok p => p.length | .error _ => 0
-    runPure zl (k r) inp e { c with steps := c.steps + 1, alloc := c.alloc + 2 * m + 1024 }
+    runPure zl (k r) inp e { c with steps := c.steps + 1, alloc := c.alloc + 2 * m + 1024, zout := c.zout + m }
 
 /-- the first payload passed to the external inflate for which `known` has no answer -/
 def firstNeed {α : Type} (known : List UInt8 → Option (Except String (List UInt8))) :
